@@ -13,218 +13,200 @@ concurrency of requests, handlers, retransmissions and housekeeping.
 What is proved here:
 * `monitor_iff_spec` — the typestate monitor that is run over the lifecycle traces of the real code accepts a
   trace **iff** the trace satisfies the property as stated declaratively in `Spec/Ownership.lean`
-  (no double release, no release/recycling while the application holds, no hand-out of a released object, no write
-  after release): for every trace and every initial ownership state.  So a clean monitor run is exactly the
-  property on that execution, and a monitor alarm is never a false alarm with respect to the stated conditions.
-* `processReceived_ok`, `doHandover_ok`, `midElement_once` — the library's receive path, the response hand-over to a
-  waiting request and the pending-confirmable clone obey the discipline for **every** behaviour of the application
-  handler built from SetMessage / Swap / release-of-swapped / Hijack (path programs, hand abstraction of the code).
+  (no double release; no second hand-out by the pool without a release in between; no release/recycling while any
+  of the — counted — application holds is in progress; no hand-out of a released object to the application; no
+  read/write by the library of a released object; no write after release): for every trace and every initial
+  ownership state with its pending obligations.  So a clean monitor run is exactly the property on that execution,
+  and a monitor alarm is never a false alarm with respect to the stated conditions.  `monitor_sound`: from the empty
+  state (`Store.init`, nothing seen yet) there are no pending obligations.
+* `processReceived_ok`, `doHandover_ok` — the library's receive path and the response hand-over to a waiting request
+  obey the discipline for **every** behaviour of the application handler built from SetMessage / Swap /
+  release-of-swapped / Hijack (path programs, hand abstraction of the code).
+* `midElement_ok`, `midElement_spec`, `midElement_released_once` — the pending confirmable's stored clone
+  (`midElement` of udp/client/conn.go: `private.msg` under `private.Mutex`) as a transition system: for **every
+  schedule** of release attempts (ACK, RST, response, expiry, write error), retransmissions (`GetMessage`: acquire a
+  copy, clone the stored message into it, all under the lock; failing or not) and completions (write + release of
+  the copy), interleaved at the granularity of the critical sections, the emitted trace is accepted by the monitor;
+  the stored clone is released exactly once iff some release attempt runs.  `midElement_unlocked_clone_rejected`:
+  the same system with the clone moved out of the critical section (seeded shape C12-A) has a rejected schedule.
 
-What is not proved (hence partial): that the Go code follows exactly these path programs on every schedule — this is
-observed, not proved: hook h1 records the real acquire/release trace of every scenario the harness runs and the
-monitor validates it (`traces_validated_against_impl`); reads after release are detected only through the poison
-values that a message carries while it sits in the pool.
+What is not proved (hence partial): that the Go code follows exactly these path programs / this transition system on
+every schedule — this is observed, not proved: hook h1 records the real acquire/release trace of every scenario the
+harness runs and the monitor validates it (`traces_validated_against_impl`); reads after release by the real code are
+detected only through the poison values that a message carries while it sits in the pool and through the race
+harness (the tracker emits no `use` events; `use` occurs in the model traces of `midElement` only).
 -/
 namespace CoapVerif.Props.C12
 open CoapVerif CoapVerif.Model.Ownership
-open CoapVerif.Spec.Ownership (Ev okAfterRel okWhileHeld specOK)
+open CoapVerif.Spec.Ownership (Ev okAfterRel okAfterAcq okWhileHeld specOK)
+
+/-- What the spec asks of the rest of the trace at the event `e` itself (the clause that starts at `e`). -/
+def headOK : Ev → List Ev → Bool
+  | .rel o, r => okAfterRel o r
+  | .acq o, r => okAfterAcq o r
+  | .hold o, r => okWhileHeld o 0 r
+  | .poisonBad _, _ => false
+  | _, _ => true
+
+theorem specOK_cons (e : Ev) (es : List Ev) : specOK (e :: es) = (headOK e es && specOK es) := by
+  cases e <;> simp [specOK, headOK]
+
+/-- The obligation a past `acq o` still puts on the rest of the trace. -/
+def acqObl (o : Nat) (out : Bool) (es : List Ev) : Bool := if out then okAfterAcq o es else true
+
+/-- The obligations the typestate `t` of object `o` puts on the rest of the trace -/
+def obl (o : Nat) : TS → List Ev → Bool
+  | .free, es => okAfterRel o es
+  | .held out, es => acqObl o out es
+  | .app out n, es => okWhileHeld o n es && acqObl o out es
 
 /-- The obligations the current ownership state puts on the rest of the trace. -/
-def Pending (m : Store) (es : List Ev) : Prop :=
-  ∀ o, (m o = .free → okAfterRel o es = true) ∧ (m o = .app → okWhileHeld o es = true)
+def Pending (m : Store) (es : List Ev) : Prop := ∀ o, obl o (m o) es = true
 
 theorem set_same (m : Store) (o : Nat) (t : TS) : (m.set o t) o = t := by simp [Store.set]
 theorem set_other (m : Store) (o x : Nat) (t : TS) (h : x ≠ o) : (m.set o t) x = m x := by simp [Store.set, h]
+
+/-- A hold that is protected at nesting depth `d+1` is protected at depth `d`. -/
+theorem okWhileHeld_mono1 (o : Nat) (es : List Ev) : ∀ d, okWhileHeld o (d + 1) es = true → okWhileHeld o d es = true := by
+  induction es with
+  | nil => intro d _; rfl
+  | cons e es ih =>
+    intro d h
+    cases e with
+    | hold o' =>
+      simp only [okWhileHeld] at h ⊢
+      by_cases ho : o' = o
+      · simp only [ho, if_true] at h ⊢; exact ih _ h
+      · simp only [ho, if_false] at h ⊢; exact ih _ h
+    | unhold o' =>
+      simp only [okWhileHeld] at h ⊢
+      by_cases ho : o' = o
+      · simp only [ho, if_true] at h ⊢
+        cases d with
+        | zero => rfl
+        | succ d' => exact ih _ h
+      · simp only [ho, if_false] at h ⊢; exact ih _ h
+    | rel o' =>
+      simp only [okWhileHeld] at h ⊢
+      by_cases ho : o' = o
+      · simp [ho] at h
+      · simp only [ho, if_false] at h ⊢; exact ih _ h
+    | acq o' =>
+      simp only [okWhileHeld] at h ⊢
+      by_cases ho : o' = o
+      · simp [ho] at h
+      · simp only [ho, if_false] at h ⊢; exact ih _ h
+    | poisonBad o' => simp only [okWhileHeld] at h ⊢; exact ih _ h
+    | use o' => simp only [okWhileHeld] at h ⊢; exact ih _ h
+
+theorem okWhileHeld_zero (o : Nat) (es : List Ev) : ∀ d, okWhileHeld o d es = true → okWhileHeld o 0 es = true := by
+  intro d
+  induction d with
+  | zero => exact id
+  | succ d ih => exact fun h => ih (okWhileHeld_mono1 o es d h)
+
+/-- An event about another object does not touch the obligations of `x`. -/
+theorem obl_other (x : Nat) (t : TS) (e : Ev) (es : List Ev) (h : objOf e ≠ x) : obl x t (e :: es) = obl x t es := by
+  cases e <;> cases t <;> simp only [objOf] at h <;>
+    simp [obl, acqObl, okAfterRel, okAfterAcq, okWhileHeld, h]
+
+/-- A step the monitor refuses breaks the clause starting at the event or an obligation pending on its object. -/
+theorem step_error (e : Ev) (t : TS) (es : List Ev) (v : Viol) (h : stepTS (objOf e) t e = .error v) :
+    ¬ (headOK e es = true ∧ obl (objOf e) t (e :: es) = true) := by
+  cases e <;> cases t <;> simp only [stepTS, objOf] at h <;>
+    (try cases h) <;> (try (rename_i out; cases out <;> simp only [] at h <;> (try cases h))) <;>
+    simp [headOK, obl, acqObl, okAfterRel, okAfterAcq, okWhileHeld, objOf]
+
+/-- A step the monitor accepts turns (the clause starting at the event + the obligations pending on its object) into
+    exactly the obligations of the new typestate. -/
+theorem step_ok (e : Ev) (t t' : TS) (es : List Ev) (h : stepTS (objOf e) t e = .ok t') :
+    (headOK e es = true ∧ obl (objOf e) t (e :: es) = true) ↔ obl (objOf e) t' es = true := by
+  cases e with
+  | acq o =>
+    cases t with
+    | free => cases h; simp [headOK, obl, acqObl, okAfterRel, objOf]
+    | held out => cases out <;> cases h; simp [headOK, obl, acqObl, objOf]
+    | app out n => cases h
+  | rel o =>
+    cases t with
+    | free => cases h
+    | held out => cases h; cases out <;> simp [headOK, obl, acqObl, okAfterAcq, objOf]
+    | app out n => cases h
+  | hold o =>
+    cases t with
+    | free => cases h
+    | held out => cases h; simp [headOK, obl, acqObl, okAfterAcq, objOf]
+    | app out n =>
+      cases h
+      simp only [headOK, obl, acqObl, okAfterAcq, okWhileHeld, objOf, if_true, Bool.and_eq_true]
+      constructor
+      · intro h; exact h.2
+      · intro h; exact ⟨okWhileHeld_zero o es _ h.1, h⟩
+  | unhold o =>
+    cases t with
+    | free => cases h; simp [headOK, obl, okAfterRel, objOf]
+    | held out => cases h; simp [headOK, obl, acqObl, okAfterAcq, objOf]
+    | app out n =>
+      cases n <;> cases h <;> simp [headOK, obl, acqObl, okAfterAcq, okWhileHeld, objOf]
+  | poisonBad o => cases h
+  | use o =>
+    cases t with
+    | free => cases h
+    | held out => cases h; simp [headOK, obl, acqObl, okAfterAcq, objOf]
+    | app out n => cases h; simp [headOK, obl, acqObl, okAfterAcq, okWhileHeld, objOf]
 
 /-- **monitor_iff_spec**: for every trace and every ownership state, the monitor accepts exactly the traces that meet
     the declarative property (given the obligations already pending from the past). -/
 theorem monitor_iff_spec (es : List Ev) : ∀ (m : Store), monitor m es = none ↔ (specOK es = true ∧ Pending m es) := by
   induction es with
-  | nil => intro m; simp [monitor, specOK, Pending, okAfterRel, okWhileHeld]
+  | nil => intro m; simp only [monitor, specOK, Pending, true_and]; exact ⟨fun _ o => by cases m o <;> simp [obl, acqObl, okAfterRel, okAfterAcq, okWhileHeld], fun _ => trivial⟩
   | cons e es ih =>
     intro m
-    cases e with
-    | acq o =>
-      simp only [monitor, stepM]
-      cases hm : m o with
-      | app =>
-        simp only []
-        constructor
-        · intro h; cases h
-        · intro ⟨_, hp⟩
-          have := (hp o).2 hm
-          simp [okWhileHeld] at this
-      | free =>
-        simp only []
-        rw [ih]
-        simp only [specOK]
-        constructor
-        · intro ⟨hs, hp⟩
-          refine ⟨hs, fun x => ?_⟩
-          by_cases hx : x = o
-          · subst hx; exact ⟨(fun _ => by simp [okAfterRel]), (fun h => by rw [hm] at h; cases h)⟩
-          · have := hp x
-            rw [set_other m o x _ hx] at this
-            exact ⟨(fun h => by simp [okAfterRel, Ne.symm hx, this.1 h]), (fun h => by simp [okWhileHeld, Ne.symm hx, this.2 h])⟩
-        · intro ⟨hs, hp⟩
-          refine ⟨hs, fun x => ?_⟩
-          by_cases hx : x = o
-          · subst hx; rw [set_same]; exact ⟨(fun h => by cases h), (fun h => by cases h)⟩
-          · rw [set_other m o x _ hx]
-            have := hp x
-            exact ⟨(fun h => by simpa [okAfterRel, Ne.symm hx] using this.1 h), (fun h => by simpa [okWhileHeld, Ne.symm hx] using this.2 h)⟩
-      | held =>
-        simp only []
-        rw [ih]
-        simp only [specOK]
-        constructor
-        · intro ⟨hs, hp⟩
-          refine ⟨hs, fun x => ?_⟩
-          by_cases hx : x = o
-          · subst hx; exact ⟨(fun _ => by simp [okAfterRel]), (fun h => by rw [hm] at h; cases h)⟩
-          · have := hp x
-            rw [set_other m o x _ hx] at this
-            exact ⟨(fun h => by simp [okAfterRel, Ne.symm hx, this.1 h]), (fun h => by simp [okWhileHeld, Ne.symm hx, this.2 h])⟩
-        · intro ⟨hs, hp⟩
-          refine ⟨hs, fun x => ?_⟩
-          by_cases hx : x = o
-          · subst hx; rw [set_same]; exact ⟨(fun h => by cases h), (fun h => by cases h)⟩
-          · rw [set_other m o x _ hx]
-            have := hp x
-            exact ⟨(fun h => by simpa [okAfterRel, Ne.symm hx] using this.1 h), (fun h => by simpa [okWhileHeld, Ne.symm hx] using this.2 h)⟩
-    | rel o =>
-      simp only [monitor, stepM]
-      cases hm : m o with
-      | free =>
-        simp only []
-        constructor
-        · intro h; cases h
-        · intro ⟨_, hp⟩
-          have := (hp o).1 hm
-          simp [okAfterRel] at this
-      | app =>
-        simp only []
-        constructor
-        · intro h; cases h
-        · intro ⟨_, hp⟩
-          have := (hp o).2 hm
-          simp [okWhileHeld] at this
-      | held =>
-        simp only []
-        rw [ih]
-        simp only [specOK, Bool.and_eq_true]
-        constructor
-        · intro ⟨hs, hp⟩
-          have ho := (hp o).1 (set_same m o .free)
-          refine ⟨⟨ho, hs⟩, fun x => ?_⟩
-          by_cases hx : x = o
-          · subst hx; exact ⟨(fun h => by rw [hm] at h; cases h), (fun h => by rw [hm] at h; cases h)⟩
-          · have := hp x
-            rw [set_other m o x _ hx] at this
-            exact ⟨(fun h => by simp [okAfterRel, Ne.symm hx, this.1 h]), (fun h => by simp [okWhileHeld, Ne.symm hx, this.2 h])⟩
-        · intro ⟨⟨ho, hs⟩, hp⟩
-          refine ⟨hs, fun x => ?_⟩
-          by_cases hx : x = o
-          · subst hx; rw [set_same]; exact ⟨(fun _ => ho), (fun h => by cases h)⟩
-          · rw [set_other m o x _ hx]
-            have := hp x
-            exact ⟨(fun h => by simpa [okAfterRel, Ne.symm hx] using this.1 h), (fun h => by simpa [okWhileHeld, Ne.symm hx] using this.2 h)⟩
-    | hold o =>
-      simp only [monitor, stepM]
-      cases hm : m o with
-      | free =>
-        simp only []
-        constructor
-        · intro h; cases h
-        · intro ⟨_, hp⟩
-          have := (hp o).1 hm
-          simp [okAfterRel] at this
-      | app =>
-        simp only []
-        rw [ih]
-        simp only [specOK, Bool.and_eq_true]
-        constructor
-        · intro ⟨hs, hp⟩
-          have ho := (hp o).2 (set_same m o .app)
-          refine ⟨⟨ho, hs⟩, fun x => ?_⟩
-          by_cases hx : x = o
-          · subst hx; exact ⟨(fun h => by rw [hm] at h; cases h), (fun _ => by simpa [okWhileHeld] using ho)⟩
-          · have := hp x
-            rw [set_other m o x _ hx] at this
-            exact ⟨(fun h => by simp [okAfterRel, Ne.symm hx, this.1 h]), (fun h => by simpa [okWhileHeld] using this.2 h)⟩
-        · intro ⟨⟨ho, hs⟩, hp⟩
-          refine ⟨hs, fun x => ?_⟩
-          by_cases hx : x = o
-          · subst hx; rw [set_same]; exact ⟨(fun h => by cases h), (fun _ => ho)⟩
-          · rw [set_other m o x _ hx]
-            have := hp x
-            exact ⟨(fun h => by simpa [okAfterRel, Ne.symm hx] using this.1 h), (fun h => by simpa [okWhileHeld] using this.2 h)⟩
-      | held =>
-        simp only []
-        rw [ih]
-        simp only [specOK, Bool.and_eq_true]
-        constructor
-        · intro ⟨hs, hp⟩
-          have ho := (hp o).2 (set_same m o .app)
-          refine ⟨⟨ho, hs⟩, fun x => ?_⟩
-          by_cases hx : x = o
-          · subst hx; exact ⟨(fun h => by rw [hm] at h; cases h), (fun h => by rw [hm] at h; cases h)⟩
-          · have := hp x
-            rw [set_other m o x _ hx] at this
-            exact ⟨(fun h => by simp [okAfterRel, Ne.symm hx, this.1 h]), (fun h => by simpa [okWhileHeld] using this.2 h)⟩
-        · intro ⟨⟨ho, hs⟩, hp⟩
-          refine ⟨hs, fun x => ?_⟩
-          by_cases hx : x = o
-          · subst hx; rw [set_same]; exact ⟨(fun h => by cases h), (fun _ => ho)⟩
-          · rw [set_other m o x _ hx]
-            have := hp x
-            exact ⟨(fun h => by simpa [okAfterRel, Ne.symm hx] using this.1 h), (fun h => by simpa [okWhileHeld] using this.2 h)⟩
-    | unhold o =>
-      simp only [monitor, stepM]
+    simp only [monitor, stepM, specOK_cons, Bool.and_eq_true]
+    cases hs : stepTS (objOf e) (m (objOf e)) e with
+    | error v =>
+      simp only []
+      constructor
+      · intro h; cases h
+      · intro ⟨⟨hh, _⟩, hp⟩; exact absurd ⟨hh, hp (objOf e)⟩ (step_error e _ es v hs)
+    | ok t' =>
+      simp only []
       rw [ih]
-      simp only [specOK]
-      by_cases hm : m o = .app
-      · simp only [hm, if_true]
-        constructor
-        · intro ⟨hs, hp⟩
-          refine ⟨hs, fun x => ?_⟩
-          by_cases hx : x = o
-          · subst hx; exact ⟨(fun h => by rw [hm] at h; cases h), (fun _ => by simp [okWhileHeld])⟩
-          · have := hp x
-            rw [set_other m o x _ hx] at this
-            exact ⟨(fun h => by simpa [okAfterRel] using this.1 h), (fun h => by simp [okWhileHeld, Ne.symm hx, this.2 h])⟩
-        · intro ⟨hs, hp⟩
-          refine ⟨hs, fun x => ?_⟩
-          by_cases hx : x = o
-          · subst hx; rw [set_same]; exact ⟨(fun h => by cases h), (fun h => by cases h)⟩
-          · rw [set_other m o x _ hx]
-            have := hp x
-            exact ⟨(fun h => by simpa [okAfterRel] using this.1 h), (fun h => by simpa [okWhileHeld, Ne.symm hx] using this.2 h)⟩
-      · simp only [hm, if_false]
-        constructor
-        · intro ⟨hs, hp⟩
-          refine ⟨hs, fun x => ?_⟩
+      have key := step_ok e _ t' es hs
+      constructor
+      · intro ⟨hsp, hp⟩
+        have h1 := key.mpr (by simpa [set_same] using hp (objOf e))
+        refine ⟨⟨h1.1, hsp⟩, fun x => ?_⟩
+        by_cases hx : x = objOf e
+        · rw [hx]; exact h1.2
+        · rw [obl_other x _ e es (Ne.symm hx)]
           have := hp x
-          by_cases hx : x = o
-          · subst hx; exact ⟨(fun h => by simpa [okAfterRel] using this.1 h), (fun h => absurd h hm)⟩
-          · exact ⟨(fun h => by simpa [okAfterRel] using this.1 h), (fun h => by simp [okWhileHeld, Ne.symm hx, this.2 h])⟩
-        · intro ⟨hs, hp⟩
-          refine ⟨hs, fun x => ?_⟩
-          have := hp x
-          by_cases hx : x = o
-          · subst hx; exact ⟨(fun h => by simpa [okAfterRel] using this.1 h), (fun h => absurd h hm)⟩
-          · exact ⟨(fun h => by simpa [okAfterRel] using this.1 h), (fun h => by simpa [okWhileHeld, Ne.symm hx] using this.2 h)⟩
-    | poisonBad o =>
-      simp [monitor, stepM, specOK]
+          rwa [set_other m _ x _ hx] at this
+      · intro ⟨⟨hh, hsp⟩, hp⟩
+        refine ⟨hsp, fun x => ?_⟩
+        by_cases hx : x = objOf e
+        · rw [hx, set_same]; exact key.mp ⟨hh, hp (objOf e)⟩
+        · rw [set_other m _ x _ hx, ← obl_other x _ e es (Ne.symm hx)]
+          exact hp x
 
-/-- From the start of a trace (every object held by its creator): the monitor accepts iff the property holds. -/
+/-- From the start of a trace (nothing seen yet): the monitor accepts iff the property holds. -/
 theorem monitor_sound (es : List Ev) : monitor Store.init es = none ↔ specOK es = true := by
   rw [monitor_iff_spec]
-  constructor
-  · intro h; exact h.1
-  · intro h; exact ⟨h, (fun o => ⟨fun hf => by simp [Store.init] at hf, fun hf => by simp [Store.init] at hf⟩)⟩
+  exact ⟨fun h => h.1, fun h => ⟨h, fun o => rfl⟩⟩
 
 /-! ### Path programs of the library routines -/
+
+/-- `t` is the state of an object owned by library or handler code, not held by the application, not in the pool. -/
+def Owned (t : TS) : Prop := ∃ out, t = .held out
+
+theorem monitor_cons_ok (m m' : Store) (e : Ev) (es : List Ev) (h : stepM m e = .ok m') :
+    monitor m (e :: es) = monitor m' es := by
+  simp [monitor, h]
+
+theorem monitor_rel_owned (m : Store) (o : Nat) (es : List Ev) (h : Owned (m o)) :
+    monitor m (.rel o :: es) = monitor (m.set o .free) es := by
+  obtain ⟨b, hb⟩ := h
+  exact monitor_cons_ok _ _ _ _ (by simp [stepM, stepTS, objOf, hb])
 
 /-- objects the handler brings in (it owns them: they are `held`) -/
 def freshOf : List HandlerOp → List Nat
@@ -247,9 +229,9 @@ theorem ne_of_mem_not_mem {a b : Nat} {l : List Nat} (ha : a ∈ l) (hb : b ∉ 
   fun e => hb (e ▸ ha)
 
 theorem handler_ok (ops : List HandlerOp) : ∀ (s : PathState) (m : Store) (tail : List Ev),
-    Distinct s (freshOf ops) → m s.resp = .held → (∀ o ∈ s.swapped, m o = .held) → (∀ f ∈ freshOf ops, m f = .held) →
+    Distinct s (freshOf ops) → Owned (m s.resp) → (∀ o ∈ s.swapped, Owned (m o)) → (∀ f ∈ freshOf ops, Owned (m f)) →
     ∃ m', monitor m ((handlerTrace s ops).2 ++ tail) = monitor m' tail ∧
-      m' (handlerTrace s ops).1.resp = .held ∧
+      Owned (m' (handlerTrace s ops).1.resp) ∧
       (handlerTrace s ops).1.resp ∈ s.resp :: freshOf ops ∧
       (∀ x, x ≠ s.resp → x ∉ s.swapped → x ∉ freshOf ops → m' x = m x) := by
   induction ops with
@@ -265,14 +247,15 @@ theorem handler_ok (ops : List HandlerOp) : ∀ (s : PathState) (m : Store) (tai
       have hnd := List.nodup_cons.mp hd.d3
       have hd1 : Distinct { s with resp := f } (freshOf ops) :=
         ⟨hf.2, hd.d2, hnd.2, fun g hg => ⟨ne_of_mem_not_mem hg hnd.1, (hd.d4 g (by simp [hg])).2⟩⟩
-      have h1 : (m.set s.resp .free) f = .held := by rw [set_other m _ f _ hf.1]; exact hfr f (by simp)
-      have h2 : ∀ o ∈ s.swapped, (m.set s.resp .free) o = .held := fun o ho => by
+      have h1 : Owned ((m.set s.resp .free) f) := by rw [set_other m _ f _ hf.1]; exact hfr f (by simp)
+      have h2 : ∀ o ∈ s.swapped, Owned ((m.set s.resp .free) o) := fun o ho => by
         rw [set_other m _ o _ (ne_of_mem_not_mem ho hd.d1)]; exact hsw o ho
-      have h3 : ∀ g ∈ freshOf ops, (m.set s.resp .free) g = .held := fun g hg => by
+      have h3 : ∀ g ∈ freshOf ops, Owned ((m.set s.resp .free) g) := fun g hg => by
         rw [set_other m _ g _ (hd.d4 g (by simp [hg])).1]; exact hfr g (by simp [hg])
       obtain ⟨m', e1, e2, e3, e4⟩ := ih { s with resp := f } (m.set s.resp .free) tail hd1 h1 h2 h3
       refine ⟨m', ?_, by simpa [handlerTrace] using e2, ?_, ?_⟩
-      · simp only [handlerTrace, List.cons_append, monitor, stepM, hr]
+      · simp only [handlerTrace, List.cons_append]
+        rw [monitor_rel_owned _ _ _ hr]
         exact e1
       · simp only [handlerTrace]
         rcases List.mem_cons.mp e3 with h | h
@@ -289,7 +272,7 @@ theorem handler_ok (ops : List HandlerOp) : ∀ (s : PathState) (m : Store) (tai
         ⟨by simp [hf.1, hf.2], List.nodup_cons.mpr ⟨hd.d1, hd.d2⟩, hnd.2,
          fun g hg => ⟨ne_of_mem_not_mem hg hnd.1, by
            have := hd.d4 g (by simp [hg]); simp [this.1, this.2]⟩⟩
-      have h2 : ∀ o ∈ s.resp :: s.swapped, m o = .held := fun o ho => by
+      have h2 : ∀ o ∈ s.resp :: s.swapped, Owned (m o) := fun o ho => by
         rcases List.mem_cons.mp ho with h | h
         · rw [h]; exact hr
         · exact hsw o h
@@ -316,19 +299,20 @@ theorem handler_ok (ops : List HandlerOp) : ∀ (s : PathState) (m : Store) (tai
         have hmo : o ∈ o :: rest := by simp
         have hsub : ∀ x ∈ rest, x ∈ o :: rest := fun x hx => by simp [hx]
         have hnd := List.nodup_cons.mp hd.d2
-        have ho : m o = .held := hsw o hmo
+        have ho : Owned (m o) := hsw o hmo
         have hro : sr ≠ o := (ne_of_mem_not_mem hmo hd.d1).symm
         have hd1 : Distinct ⟨sr, rest, sh⟩ (freshOf ops) :=
           ⟨fun h => hd.d1 (hsub _ h), hnd.2, hd.d3,
            fun g hg => ⟨(hd.d4 g hg).1, fun h => (hd.d4 g hg).2 (hsub _ h)⟩⟩
-        have h1 : (m.set o .free) sr = .held := by rw [set_other m _ _ _ hro]; exact hr
-        have h2 : ∀ x ∈ rest, (m.set o .free) x = .held := fun x hx => by
+        have h1 : Owned ((m.set o .free) sr) := by rw [set_other m _ _ _ hro]; exact hr
+        have h2 : ∀ x ∈ rest, Owned ((m.set o .free) x) := fun x hx => by
           rw [set_other m _ x _ (ne_of_mem_not_mem hx hnd.1)]; exact hsw x (hsub x hx)
-        have h3 : ∀ g ∈ freshOf ops, (m.set o .free) g = .held := fun g hg => by
+        have h3 : ∀ g ∈ freshOf ops, Owned ((m.set o .free) g) := fun g hg => by
           rw [set_other m _ g _ (ne_of_mem_not_mem hmo (hd.d4 g hg).2).symm]; exact hfr g hg
         obtain ⟨m', e1, e2, e3, e4⟩ := ih ⟨sr, rest, sh⟩ (m.set o .free) tail hd1 h1 h2 h3
         refine ⟨m', ?_, by simpa [handlerTrace] using e2, by simpa [handlerTrace] using e3, ?_⟩
-        · simp only [handlerTrace, List.cons_append, monitor, stepM, ho]
+        · simp only [handlerTrace, List.cons_append]
+          rw [monitor_rel_owned _ _ _ ho]
           exact e1
         · intro x hx1 hx2 hx3
           have hxo : x ≠ o := fun e => hx2 (e ▸ hmo)
@@ -344,74 +328,317 @@ theorem handler_ok (ops : List HandlerOp) : ∀ (s : PathState) (m : Store) (tai
     discipline for every sequence of handler operations — given that the objects the handler brings in are its own,
     distinct ones. In particular the request is released at most once and never while the handler runs, and every
     response object installed at some point is released exactly once. -/
-theorem monitor_cons_ok (m m' : Store) (e : Ev) (es : List Ev) (h : stepM m e = .ok m') :
-    monitor m (e :: es) = monitor m' es := by
-  simp [monitor, h]
-
 theorem processReceived_ok (tcp : Bool) (req resp : Nat) (ops : List HandlerOp)
     (hfresh : (freshOf ops).Nodup) (hreq : req ≠ resp ∧ req ∉ freshOf ops) (hresp : resp ∉ freshOf ops) :
     monitor Store.init (processReceived tcp req resp ops) = none := by
   unfold processReceived
   simp only []
   -- `acq resp`, `hold req`
-  have s1 : stepM Store.init (.acq resp) = .ok (Store.init.set resp .held) := by simp [stepM, Store.init]
-  have hq : (Store.init.set resp .held) req = .held := by rw [set_other _ _ _ _ hreq.1]; rfl
-  have s2 : stepM (Store.init.set resp .held) (.hold req) = .ok ((Store.init.set resp .held).set req .app) := by
-    simp [stepM, hq]
+  have s1 : stepM Store.init (.acq resp) = .ok (Store.init.set resp (.held true)) := by
+    simp [stepM, stepTS, objOf, Store.init]
+  have hq : (Store.init.set resp (.held true)) req = .held false := by rw [set_other _ _ _ _ hreq.1]; rfl
+  have s2 : stepM (Store.init.set resp (.held true)) (.hold req)
+      = .ok ((Store.init.set resp (.held true)).set req (.app false 0)) := by
+    simp [stepM, stepTS, objOf, hq]
   rw [monitor_cons_ok _ _ _ _ s1, monitor_cons_ok _ _ _ _ s2]
-  have hm0r : ((Store.init.set resp .held).set req .app) resp = .held := by
-    rw [set_other _ _ _ _ (Ne.symm hreq.1), set_same]
-  have hm0f : ∀ f ∈ freshOf ops, ((Store.init.set resp .held).set req .app) f = .held := fun f hf => by
-    rw [set_other _ _ _ _ (ne_of_mem_not_mem hf hreq.2), set_other _ _ _ _ (ne_of_mem_not_mem hf hresp)]; rfl
+  have hm0r : Owned (((Store.init.set resp (.held true)).set req (.app false 0)) resp) := by
+    rw [set_other _ _ _ _ (Ne.symm hreq.1), set_same]; exact ⟨_, rfl⟩
+  have hm0f : ∀ f ∈ freshOf ops, Owned (((Store.init.set resp (.held true)).set req (.app false 0)) f) := fun f hf => by
+    rw [set_other _ _ _ _ (ne_of_mem_not_mem hf hreq.2), set_other _ _ _ _ (ne_of_mem_not_mem hf hresp)]; exact ⟨_, rfl⟩
   have hd : Distinct { resp := resp } (freshOf ops) :=
     ⟨by simp, by simp, hfresh, fun f hf => ⟨ne_of_mem_not_mem hf hresp, by simp⟩⟩
-  obtain ⟨m', e1, e2, e3, e4⟩ := handler_ok ops { resp := resp } ((Store.init.set resp .held).set req .app) _
+  obtain ⟨m', e1, e2, e3, e4⟩ := handler_ok ops { resp := resp } ((Store.init.set resp (.held true)).set req (.app false 0)) _
     hd hm0r (by simp) hm0f
   rw [e1]
-  have hreqm : m' req = .app := by
+  have hreqm : m' req = .app false 0 := by
     rw [e4 req hreq.1 (by simp) hreq.2]; exact set_same _ _ _
   have hne : (handlerTrace { resp := resp } ops).1.resp ≠ req := by
     intro e
     rcases List.mem_cons.mp e3 with h | h
     · exact hreq.1 (by rw [← e, h])
     · exact hreq.2 (e ▸ h)
-  have s3 : stepM m' (.unhold req) = .ok (m'.set req .held) := by simp [stepM, hreqm]
+  have s3 : stepM m' (.unhold req) = .ok (m'.set req (.held false)) := by simp [stepM, stepTS, objOf, hreqm]
   rw [monitor_cons_ok _ _ _ _ s3]
-  have hr2 : (m'.set req .held) (handlerTrace { resp := resp } ops).1.resp = .held := by
+  have hr2 : Owned ((m'.set req (.held false)) (handlerTrace { resp := resp } ops).1.resp) := by
     rw [set_other _ _ _ _ hne]; exact e2
+  obtain ⟨b, hb⟩ := hr2
   cases tcp <;> cases (handlerTrace { resp := resp } ops).1.hijacked <;>
-    simp [monitor, stepM, set_same, hr2, set_other _ _ _ _ hne, set_other _ _ _ _ (Ne.symm hne)]
+    simp [monitor, stepM, stepTS, objOf, set_same, hb, set_other _ _ _ _ hne, set_other _ _ _ _ (Ne.symm hne)]
 
 /-- **routine_preserves (response hand-over)**: the response hijacked by a waiting request call is not released by the
     receive path, is held by the caller and released by it exactly once. -/
 theorem doHandover_ok (r resp : Nat) (h : r ≠ resp) : monitor Store.init (doHandover r resp) = none := by
   unfold doHandover processReceived
-  simp [handlerTrace, monitor, stepM, Store.init, Store.set, h, Ne.symm h]
+  simp [handlerTrace, monitor, stepM, stepTS, objOf, Store.init, Store.set, h, Ne.symm h]
 
-/-- **routine_preserves (pending confirmable)**: however many of {ACK/RST, expiry sweep, retransmission error} try to
-    release the private clone, it reaches the pool at most once. -/
-theorem midElement_once (clone n : Nat) : monitor Store.init (midElementReleases clone n) = none := by
-  unfold midElementReleases
-  split <;> simp [monitor, stepM, Store.init, Store.set]
 
-/-! Non-vacuity: a handler that installs its own response (3), swaps in another (4), releases what Swap gave back and
-    hijacks the request; and a trace with a double release that the monitor rejects. -/
+/-! ### `midElement`: the stored clone under its lock, every schedule -/
+
+theorem set_self (m : Store) (o : Nat) : m.set o (m o) = m := by
+  funext x; simp only [Store.set]; split
+  · rename_i h; rw [h]
+  · rfl
+
+theorem monitor_use_live (m : Store) (o : Nat) (es : List Ev) (h : m o ≠ .free) :
+    monitor m (.use o :: es) = monitor m es := by
+  have : stepM m (.use o) = .ok m := by
+    simp only [stepM, objOf]
+    cases hm : m o with
+    | free => exact absurd hm h
+    | held b => simp only [stepTS]; rw [← hm, set_self]
+    | app b n => simp only [stepTS]; rw [← hm, set_self]
+  exact monitor_cons_ok _ _ _ _ this
+
+theorem monitor_acq_avail (m : Store) (o : Nat) (es : List Ev) (h : m o = .free ∨ m o = .held false) :
+    monitor m (.acq o :: es) = monitor (m.set o (.held true)) es := by
+  rcases h with h | h <;> exact monitor_cons_ok _ _ _ _ (by simp [stepM, stepTS, objOf, h])
+
+/-- What the ownership state knows about a `midElement` whose accesses are all under the lock. -/
+structure MidInv (clone : Nat) (s : MidState) (m : Store) : Prop where
+  noPtr : s.ptrs = 0
+  cl : m clone = if s.stored then .held true else .free
+  notCopy : clone ∉ s.copies
+  nodup : s.copies.Nodup
+  copies : ∀ k ∈ s.copies, m k = .held true
+  others : ∀ x, x ≠ clone → x ∉ s.copies → m x = .free ∨ m x = .held false
+
+theorem midRun_ok (clone : Nat) (sched : List MidStep) : ∀ (s : MidState) (m : Store),
+    (∀ st ∈ sched, st.underLock = true) → MidInv clone s m → monitor m (midRun clone s sched) = none := by
+  induction sched with
+  | nil => intro s m _ _; rfl
+  | cons st r ih =>
+    intro s m hl inv
+    have hr : ∀ st ∈ r, st.underLock = true := fun x hx => hl x (by simp [hx])
+    have hst := hl st (by simp)
+    obtain ⟨stored, ptrs, copies⟩ := s
+    have hI := inv
+    obtain ⟨i1, i2, i3, i4, i5, i6⟩ := inv
+    simp only at i1 i2 i3 i4 i5 i6
+    cases st with
+    | release =>
+      simp only [midRun, midStep]
+      cases stored with
+      | false => exact ih _ m hr hI
+      | true =>
+        simp only [if_true, List.cons_append, List.nil_append]
+        rw [monitor_rel_owned m clone _ ⟨true, by simpa using i2⟩]
+        refine ih _ _ hr ⟨i1, by simp [set_same], i3, i4, fun k hk => ?_, fun x hx hx2 => ?_⟩
+        · rw [set_other _ _ _ _ (ne_of_mem_not_mem hk i3)]; exact i5 k hk
+        · rw [set_other _ _ _ _ hx]; exact i6 x hx hx2
+    | getMessage k fail =>
+      simp only [midRun, midStep, MidState.poolMayGive]
+      by_cases hc : (stored && ((k != clone || !stored) && !copies.contains k)) = true
+      · simp only [hc, if_true]
+        simp only [Bool.and_eq_true, Bool.or_eq_true, bne_iff_ne, ne_eq, Bool.not_eq_true', List.contains_eq_mem,
+          decide_eq_false_iff_not] at hc
+        obtain ⟨hs, hk1, hk2⟩ := hc
+        subst hs
+        have hkc : k ≠ clone := by rcases hk1 with h | h; exact h; cases h
+        simp only [if_true] at i2
+        have hcl : (m.set k (.held true)) clone = .held true := by rw [set_other _ _ _ _ (Ne.symm hkc)]; exact i2
+        cases fail with
+        | true =>
+          simp only [if_true, List.cons_append, List.nil_append]
+          rw [monitor_acq_avail m k _ (i6 k hkc hk2), monitor_use_live _ clone _ (by rw [hcl]; simp),
+            monitor_use_live _ k _ (by rw [set_same]; simp), monitor_rel_owned _ k _ ⟨true, set_same _ _ _⟩]
+          refine ih _ _ hr ⟨i1, ?_, i3, i4, fun x hx => ?_, fun x hx hx2 => ?_⟩
+          · simp only [if_true]; rw [set_other _ _ _ _ (Ne.symm hkc)]; exact hcl
+          · have : x ≠ k := fun e => hk2 (e ▸ hx)
+            rw [set_other _ _ _ _ this, set_other _ _ _ _ this]; exact i5 x hx
+          · by_cases hxk : x = k
+            · rw [hxk, set_same]; exact Or.inl rfl
+            · rw [set_other _ _ _ _ hxk, set_other _ _ _ _ hxk]; exact i6 x hx hx2
+        | false =>
+          simp only [Bool.false_eq_true, if_false, List.cons_append, List.nil_append]
+          rw [monitor_acq_avail m k _ (i6 k hkc hk2), monitor_use_live _ clone _ (by rw [hcl]; simp),
+            monitor_use_live _ k _ (by rw [set_same]; simp)]
+          refine ih _ _ hr ⟨i1, by simpa using hcl, ?_, List.nodup_cons.mpr ⟨hk2, i4⟩, fun x hx => ?_, fun x hx hx2 => ?_⟩
+          · simp only [List.mem_cons, not_or]; exact ⟨Ne.symm hkc, i3⟩
+          · rcases List.mem_cons.mp hx with h | h
+            · rw [h, set_same]
+            · have : x ≠ k := fun e => hk2 (e ▸ h)
+              rw [set_other _ _ _ _ this]; exact i5 x h
+          · simp only [List.mem_cons, not_or] at hx2
+            rw [set_other _ _ _ _ hx2.1]; exact i6 x hx hx2.2
+      · simp only [hc, Bool.false_eq_true, if_false, List.nil_append]
+        exact ih _ m hr hI
+    | finish k =>
+      simp only [midRun, midStep]
+      by_cases hk : copies.contains k = true
+      · simp only [hk, if_true, List.cons_append, List.nil_append]
+        simp only [List.contains_eq_mem, decide_eq_true_eq] at hk
+        have hmk := i5 k hk
+        have hkc : k ≠ clone := ne_of_mem_not_mem hk i3
+        rw [monitor_use_live _ k _ (by rw [hmk]; simp), monitor_rel_owned _ k _ ⟨true, hmk⟩]
+        refine ih _ _ hr ⟨i1, ?_, fun h => i3 (List.mem_of_mem_erase h), i4.erase k, fun x hx => ?_, fun x hx hx2 => ?_⟩
+        · simp only; rw [set_other _ _ _ _ (Ne.symm hkc)]; exact i2
+        · have := (List.Nodup.mem_erase_iff i4).mp hx
+          rw [set_other _ _ _ _ this.1]; exact i5 x this.2
+        · by_cases hxk : x = k
+          · rw [hxk, set_same]; exact Or.inl rfl
+          · rw [set_other _ _ _ _ hxk]
+            exact i6 x hx (fun h => hx2 ((List.Nodup.mem_erase_iff i4).mpr ⟨hxk, h⟩))
+      · simp only [hk, Bool.false_eq_true, if_false, List.nil_append]
+        exact ih _ m hr hI
+    | takePtr => cases hst
+    | cloneUnlocked k => cases hst
+
+/-- **routine_preserves (pending confirmable)**: whatever number of release attempts (ACK, RST, response, expiry, write
+    error) and retransmissions (`GetMessage` + write + release of the copy) run against one `midElement`, in whatever
+    interleaving of their critical sections, the lifecycle trace obeys the ownership discipline: the stored clone is
+    not released twice, it is not read by a retransmission after its release, copies are acquired, used and released
+    once each. -/
+theorem midElement_ok (clone : Nat) (sched : List MidStep) (hl : ∀ st ∈ sched, st.underLock = true) :
+    monitor Store.init (midElementTrace clone sched) = none := by
+  unfold midElementTrace
+  rw [monitor_acq_avail _ _ _ (Or.inr rfl), monitor_use_live _ _ _ (by rw [set_same]; simp)]
+  refine midRun_ok clone sched {} _ hl ⟨rfl, by simp [set_same], by simp, by simp, by simp, fun x hx _ => ?_⟩
+  rw [set_other _ _ _ _ hx]; exact Or.inr rfl
+
+/-- The same in the words of the declarative property. -/
+theorem midElement_spec (clone : Nat) (sched : List MidStep) (hl : ∀ st ∈ sched, st.underLock = true) :
+    specOK (midElementTrace clone sched) = true :=
+  (monitor_sound _).mp (midElement_ok clone sched hl)
+
+/-- number of `rel o` in a trace -/
+def countRel (o : Nat) : List Ev → Nat
+  | [] => 0
+  | .rel o' :: r => (if o' = o then 1 else 0) + countRel o r
+  | _ :: r => countRel o r
+
+theorem countRel_append (o : Nat) (a b : List Ev) : countRel o (a ++ b) = countRel o a + countRel o b := by
+  induction a with
+  | nil => simp [countRel]
+  | cons e a ih => cases e <;> simp [countRel, ih, Nat.add_assoc]
+
+theorem midRun_countRel (clone : Nat) (sched : List MidStep) : ∀ (s : MidState),
+    (∀ st ∈ sched, st.underLock = true) → clone ∉ s.copies →
+    countRel clone (midRun clone s sched) = if s.stored = true ∧ MidStep.release ∈ sched then 1 else 0 := by
+  induction sched with
+  | nil => intro s _ _; simp [midRun, countRel]
+  | cons st r ih =>
+    intro s hl hc
+    have hr : ∀ st ∈ r, st.underLock = true := fun x hx => hl x (by simp [hx])
+    have hst := hl st (by simp)
+    obtain ⟨stored, ptrs, copies⟩ := s
+    simp only at hc
+    simp only [midRun, countRel_append]
+    cases st with
+    | release =>
+      cases stored with
+      | false => simp only [midStep]; rw [ih _ hr hc]; simp [countRel]
+      | true => simp only [midStep, if_true]; rw [ih _ hr hc]; simp [countRel]
+    | getMessage k fail =>
+      simp only [midStep, MidState.poolMayGive]
+      by_cases hcnd : (stored && ((k != clone || !stored) && !copies.contains k)) = true
+      · simp only [hcnd, if_true]
+        simp only [Bool.and_eq_true, Bool.or_eq_true, bne_iff_ne, ne_eq, Bool.not_eq_true', List.contains_eq_mem,
+          decide_eq_false_iff_not] at hcnd
+        obtain ⟨hs, hk1, hk2⟩ := hcnd
+        subst hs
+        have hkc : k ≠ clone := by rcases hk1 with h | h; exact h; cases h
+        cases fail with
+        | true => simp only [if_true]; rw [ih _ hr hc]; simp [countRel, hkc]
+        | false =>
+          simp only [Bool.false_eq_true, if_false]
+          rw [ih _ hr (by simp only [List.mem_cons, not_or]; exact ⟨Ne.symm hkc, hc⟩)]; simp [countRel]
+      · simp only [hcnd, Bool.false_eq_true, if_false]; rw [ih _ hr hc]; simp [countRel]
+    | finish k =>
+      simp only [midStep]
+      by_cases hk : copies.contains k = true
+      · simp only [hk, if_true]
+        simp only [List.contains_eq_mem, decide_eq_true_eq] at hk
+        have hkc : k ≠ clone := ne_of_mem_not_mem hk hc
+        rw [ih _ hr (fun h => hc (List.mem_of_mem_erase h))]; simp [countRel, hkc]
+      · simp only [hk, Bool.false_eq_true, if_false]; rw [ih _ hr hc]; simp [countRel]
+    | takePtr => cases hst
+    | cloneUnlocked k => cases hst
+
+/-- The stored clone goes back to the pool **exactly once** if any release attempt runs (and not at all otherwise),
+    whatever else is scheduled around it. -/
+theorem midElement_released_once (clone : Nat) (sched : List MidStep) (hl : ∀ st ∈ sched, st.underLock = true) :
+    countRel clone (midElementTrace clone sched) = if MidStep.release ∈ sched then 1 else 0 := by
+  unfold midElementTrace
+  simp only [countRel]
+  rw [midRun_countRel clone sched {} hl (by simp)]
+  simp
+
+/-- **Negative (seeded shape C12-A)**: if `GetMessage` only reads the pointer under the lock and clones after
+    unlocking, there is a schedule — pointer taken, then an ACK releases the stored clone, then the clone is read — whose
+    trace the monitor rejects: a read of a message that sits in the pool. -/
+theorem midElement_unlocked_clone_rejected :
+    ∃ sched, monitor Store.init (midElementTrace 1 sched) = some (.usedAfterRelease 1) :=
+  ⟨[.takePtr, .release, .cloneUnlocked 2], by decide⟩
+
+/-- … for every object identity, and the declarative property is violated as well. -/
+theorem midElement_unlocked_clone_rejected' (clone : Nat) :
+    specOK (midElementTrace clone [.takePtr, .release, .cloneUnlocked (clone + 1)]) = false := by
+  simp [midElementTrace, midRun, midStep, MidState.poolMayGive, specOK, okAfterRel, okAfterAcq]
+
+/-! Non-vacuity.
+
+The three audit witnesses are rejected, by the monitor and by the spec: -/
+-- 1. the pool hands one object to two owners without a release in between
+example : monitor Store.init [.acq 1, .acq 1] = some (.handedOutTwice 1) := by decide
+example : specOK [.acq 1, .acq 1] = false := by decide
+example : monitor Store.init [.rel 1, .acq 1, .acq 1] = some (.handedOutTwice 1) := by decide
+-- 2. nested holds: the first holder is still protected after the second one is done
+example : monitor Store.init [.hold 1, .hold 1, .unhold 1, .rel 1, .unhold 1] = some (.releasedWhileAppHolds 1) := by decide
+example : specOK [.hold 1, .hold 1, .unhold 1, .rel 1, .unhold 1] = false := by decide
+-- 3. `midElement`: clone outside the lock → read of a released message (theorem `midElement_unlocked_clone_rejected`);
+--    the trace of that schedule, spelled out:
+example : midElementTrace 1 [.takePtr, .release, .cloneUnlocked 2]
+    = [.acq 1, .use 1, .rel 1, .acq 2, .use 1, .use 2] := by decide
+example : monitor Store.init [.rel 1, .use 1] = some (.usedAfterRelease 1) := by decide
+example : specOK [.rel 1, .use 1] = false := by decide
+
+/-! What stays legal: an object that never came out of the pool (`pool.NewMessage`) is held, unheld and released;
+    release and re-acquisition alternate; properly nested holds; a normal receive path; a handler that installs its
+    own response (3), swaps in another (4), releases what Swap gave back and hijacks the request; a `midElement` with
+    two retransmissions, an ACK in between and a late second release attempt. -/
+example : monitor Store.init [.hold 1, .unhold 1, .rel 1] = none := by decide
+example : monitor Store.init [.acq 1, .rel 1, .acq 1, .use 1, .rel 1] = none := by decide
+example : monitor Store.init [.hold 1, .hold 1, .unhold 1, .unhold 1, .rel 1] = none := by decide
+example : processReceived false 1 2 [] = [.acq 2, .hold 1, .unhold 1, .rel 2, .rel 1] := by decide
+example : monitor Store.init (processReceived false 1 2 []) = none := by decide
+example : specOK (processReceived true 1 2 []) = true := by decide
 example : monitor Store.init (processReceived false 1 2 [.setMessage 3, .swap 4, .releaseSwapped, .hijack]) = none := by decide
 example : monitor Store.init [.rel 5, .rel 5] = some (.doubleRelease 5) := by decide
 example : specOK [.hold 1, .rel 1, .unhold 1] = false := by decide
+example : midElementTrace 1 [.getMessage 2 false, .release, .getMessage 3 false, .finish 2, .release, .getMessage 2 true]
+    = [.acq 1, .use 1, .acq 2, .use 1, .use 2, .rel 1, .use 2, .rel 2] := by decide
+example : monitor Store.init (midElementTrace 1 [.getMessage 2 false, .release, .getMessage 3 false, .finish 2, .release]) = none := by decide
+example : countRel 1 (midElementTrace 1 [.getMessage 2 false, .release, .finish 2, .release, .release]) = 1 := by decide
 
 end CoapVerif.Props.C12
 
 section Audit
 open CoapVerif.Props.C12
+#print axioms specOK_cons
 #print axioms set_same
 #print axioms set_other
+#print axioms okWhileHeld_mono1
+#print axioms okWhileHeld_zero
+#print axioms obl_other
+#print axioms step_error
+#print axioms step_ok
 #print axioms monitor_iff_spec
 #print axioms monitor_sound
+#print axioms monitor_cons_ok
+#print axioms monitor_rel_owned
 #print axioms ne_of_mem_not_mem
 #print axioms handler_ok
-#print axioms monitor_cons_ok
 #print axioms processReceived_ok
 #print axioms doHandover_ok
-#print axioms midElement_once
+#print axioms set_self
+#print axioms monitor_use_live
+#print axioms monitor_acq_avail
+#print axioms midRun_ok
+#print axioms midElement_ok
+#print axioms midElement_spec
+#print axioms countRel_append
+#print axioms midRun_countRel
+#print axioms midElement_released_once
+#print axioms midElement_unlocked_clone_rejected
+#print axioms midElement_unlocked_clone_rejected'
 end Audit
